@@ -258,7 +258,7 @@ def _fac_native(fname, attr, argname, generic=False):
 
 
 _FAC_CASES = [dict(reg=r, selector=s) for r in REGS for s in ('a', 'c', 'nosuch')]
-_NEWCF = {'new:ClassFactory': lambda ex, st, args, kwargs, node: st.env['g_registry'], 'Klass.input_keywords': _h_keywords}
+_NEWCF = {'new:ClassFactory': lambda ex, st, args, kwargs, node: ex.root_env['g_registry'], 'Klass.input_keywords': _h_keywords}
 for _f, _attr, _arg in FACTORIES:
     Unit('C15', FA + _f, _fac_params(_attr, _arg), raises=_fac_raises(_arg), post=_fac_post(_arg), abstract=_NEWCF, cases=_FAC_CASES,
          bounds=[{}], native=_fac_native(_f, _attr, _arg), gen=lambda rng: dict(rng.choice(_FAC_CASES)), short=_f,
